@@ -743,7 +743,7 @@ Inductive bodyres :=
 Section FOLLOW.
 Variable U : ufuns.
 
-Definition trimq (b : bytes) : bytes := trim quotes b.
+Definition trimq (b : bytes) : bytes := unquote_with quotes b.
 
 Definition call_cond (c : ctx) (name : bytes) (al : list arg) : ctx * option bool :=
   match u_cond U name with
